@@ -21,13 +21,16 @@ NOTES = [
     "borrowed globals are identities: sys.stdout, time.sleep, sys.gettrace() by `is`, sys.modules and the process "
     "builtins as key set + identity of every value; unittest.mock's start()/stop() are modelled as save/restore of "
     "the patched targets (probed: which targets, that start;stop and start;start;stop;stop restore them)",
-    "the handler ladder is read from the AST of Sandbox._execute; a statement the translator does not recognise "
-    "becomes Act.unknown and c05_ladder_well_formed / c05_ladder_balanced fail",
+    "the handler ladder is read from the AST of Sandbox._execute by meaning (locals followed, helpers inlined, tuple / "
+    "isinstance handlers expanded into clauses - sandboxexec_ladder.py) and cross-checked against the measured "
+    "behaviour of the real function on an instrumented sandbox; a statement the translator does not recognise and "
+    "cannot measure, an except class outside Exception / SystemExit / BaseException, or a reading that disagrees with "
+    "the measurement becomes Act.unknown and c05_ladder_well_formed / c05_ladder_balanced fail",
     "tracer styles enter the theorems as the probed triple (installs, restores, restores when re-entered inside "
     "its own `with`); the harness pre-installs a trace function before every execution so that a style that resets "
     "it to None is visible",
     "a nested import of a student file is modelled only as re-entering the tracer (Sandbox._import is read from its "
-    "AST: exec inside the tracer's `with`, no try, no mocking calls - c05_import_transparent); that it patches "
+    "AST, private helpers followed: exec inside the tracer's `with`, no try around it, no mocking calls - c05_import_transparent); that it patches "
     "nothing else is sampled by the histories that import helper.py",
     "student code that itself calls sys.settrace is outside the model (not generated)",
     "timeouts (threaded execution, _execute_with_timeout) are C14's and not modelled",
